@@ -122,29 +122,63 @@ def collectBoth (c : DCfg) (mm : MM) (r : Nat) : MM × (StreamKey → Option Met
   let rb := if c.split then mcollect (c.mc false) mm.2 r else ra
   ((ra.1, rb.1), fun k => applyFilter c r k (if k.kind.mono then ra.2 k else rb.2 k))
 
+/-- the provider's two meters: "m" (the views select it) and "n" (no view matches: `cfgN`), each with its instance pair; a handle
+    of the case is (on meter n?, index among that meter's handles).  Every collection collects both meters with the same stamp. -/
+structure St where
+  a : MM
+  b : MM
+  hs : List (Bool × Nat)
+
+def cfgN (c : DCfg) : DCfg := { c with views := [] }
+
+def St.addTo (c : DCfg) (st : St) (h a : Nat) (v : Int) : St :=
+  match st.hs[h]? with
+  | some (false, l) => { st with a := both c st.a (fun _ m => madd m l a v) }
+  | some (true, l) => { st with b := both (cfgN c) st.b (fun _ m => madd m l a v) }
+  | none => st
+
+def St.kindOfHandle (st : St) (h : Nat) : Option Kind :=
+  match st.hs[h]? with
+  | some (false, l) => (st.a.1.handles[l]?).map (·.1)
+  | some (true, l) => (st.b.1.handles[l]?).map (·.1)
+  | none => none
+
+/-- collection by reader r: (new state, outputs per labelled stream) -/
+def St.collect (c : DCfg) (st : St) (r : Nat) : St × List (String × Bool × MetricData) :=
+  let ra := collectBoth c st.a r
+  let rb := collectBoth (cfgN c) st.b r
+  let outA := st.a.1.keys.filterMap fun k => (ra.2 k).map fun md => (label k, k.kind.mono, md)
+  let outB := st.b.1.keys.filterMap fun k => (rb.2 k).map fun md => ("n:" ++ label k, k.kind.mono, md)
+  ({ st with a := ra.1, b := rb.1 }, outA ++ outB)
+
 /-- one op: new state and its observation, `none` = malformed -/
-def stepOp (c : DCfg) (mm : MM) : List String → Option (MM × String)
+def stepOp (c : DCfg) (st : St) : List String → Option (St × String)
   | ["create", n, k] => do
     let n ← n.toNat?
     let k ← kindOf k
     if n ≥ 8 then none else
-    pure (both c mm (fun mc m => mcreate mc m n k), s!"h{mm.1.handles.length}")
+    pure ({ st with a := both c st.a (fun mc m => mcreate mc m n k), hs := st.hs ++ [(false, st.a.1.handles.length)] }, s!"h{st.hs.length}")
+  | ["create", n, k, "n"] => do
+    let n ← n.toNat?
+    let k ← kindOf k
+    if n ≥ 8 then none else
+    pure ({ st with b := both (cfgN c) st.b (fun mc m => mcreate mc m n k), hs := st.hs ++ [(true, st.b.1.handles.length)] }, s!"h{st.hs.length}")
   | ["add", h, a, v] => do
     let h ← h.toNat?
     let a ← a.toNat?
     let v ← v.toInt?
-    let hk ← mm.1.handles[h]?
-    if a ≥ 16 ∨ !valueOk hk.1 v then none else
-    pure (both c mm (fun _ m => madd m h a v), "ok")
+    let hk ← st.kindOfHandle h
+    if a ≥ 16 ∨ !valueOk hk v then none else
+    pure (st.addTo c h a v, "ok")
   | ["collect", r] => do
     let r ← r.toNat?
     if r ≥ c.readers.length then none else
-    let res := collectBoth c mm r
-    let mds := mm.1.keys.filterMap fun k => (res.2 k).map fun md => showMD (label k) md
+    let res := st.collect c r
+    let mds := res.2.map fun o => showMD o.1 o.2.2
     pure (res.1, "[" ++ " | ".intercalate (sortBy (fun (a b : String) => a < b) mds) ++ "]")
   -- `MeterProvider::ForceFlush` / `Shutdown`: the readers are told; no measurement is consumed and collections go on
-  | ["flush"] => pure (mm, "ok")
-  | ["shutdown"] => pure (mm, "ok")
+  | ["flush"] => pure (st, "ok")
+  | ["shutdown"] => pure (st, "ok")
   | ["race", h, t, n, r, k] => do
     -- the real-thread run of the harness; by `sched_conservation` / `sched_no_lost_update` its schedule-independent
     -- summary is what the sequential run "collect r ; all the adds ; collect r" yields
@@ -153,26 +187,30 @@ def stepOp (c : DCfg) (mm : MM) : List String → Option (MM × String)
     let n ← n.toNat?
     let r ← r.toNat?
     let k ← k.toNat?
-    let _ ← mm.1.handles[h]?
+    let _ ← st.kindOfHandle h
     if t < 1 ∨ t > 4 ∨ n > 5000 ∨ r ≥ c.readers.length ∨ k < 1 ∨ k > 64 then none else
     let rs := c.readers.getD r ⟨'C', none⟩
-    let c1 := collectBoth c mm r
-    let m1 := (List.range t).foldl (fun mm th => (List.range n).foldl (fun mm _ => both c mm (fun _ m => madd m h (th % 3 + 1) 1)) mm) c1.1
-    let m2 := both c m1 (fun _ m => madd m h 1 1)
-    let m3 := both c m2 (fun _ m => { m with collects := m.collects + (k - 1) })
-    let c2 := collectBoth c m3 r
-    let parts := m3.1.keys.filterMap fun key =>
-      match c1.2 key, c2.2 key with
+    let c1 := st.collect c r
+    let s1 := (List.range t).foldl (fun st th => (List.range n).foldl (fun st _ => st.addTo c h (th % 3 + 1) 1) st) c1.1
+    let s2 := s1.addTo c h 1 1
+    let bump : MCfg → Meter → Meter := fun _ m => { m with collects := m.collects + (k - 1) }
+    let s3 := { s2 with a := both c s2.a bump, b := both (cfgN c) s2.b bump }
+    let c2 := s3.collect c r
+    let labels := (s3.a.1.keys.map fun key => (label key, key.kind.mono)) ++ (s3.b.1.keys.map fun key => ("n:" ++ label key, key.kind.mono))
+    let parts := labels.filterMap fun lk =>
+      let o1 := (c1.2.find? (·.1 == lk.1)).map (·.2.2)
+      let o2 := (c2.2.find? (·.1 == lk.1)).map (·.2.2)
+      match o1, o2 with
       | none, none => none
       | o1, o2 =>
         let p1 := (o1.map (·.points)).getD []
         let p2 := (o2.map (·.points)).getD []
-        let pts := if rs.temp key.kind.mono = .delta then Otel.Temporal.mergeInto p1 p2 else (if o2.isSome then p2 else p1)
-        some (label key ++ " " ++ showPoints pts)
+        let pts := if rs.temp lk.2 = .delta then Otel.Temporal.mergeInto p1 p2 else (if o2.isSome then p2 else p1)
+        some (lk.1 ++ " " ++ showPoints pts)
     pure (c2.1, "race [" ++ " | ".intercalate (sortBy (fun (a b : String) => a < b) parts) ++ "]")
   | _ => none
 
-def run (c : DCfg) : MM → List (List String) → List String → Option (List String)
+def run (c : DCfg) : St → List (List String) → List String → Option (List String)
   | _, [], acc => some acc.reverse
   | m, op :: ops, acc =>
     match stepOp c m op with
@@ -185,7 +223,7 @@ def handle (toks : List String) : String :=
     match parseCfg cfgOp with
     | none => "bad-op"
     | some mc =>
-      match run mc (Meter.init, Meter.init) ops ["ok"] with
+      match run mc ⟨(Meter.init, Meter.init), (Meter.init, Meter.init), []⟩ ops ["ok"] with
       | none => "bad-op"
       | some outs => " ; ".intercalate outs
   | [] => "bad-op"
